@@ -99,6 +99,48 @@ def run(prog, rep, tier):
     if rounds == 0:
         raise CheckerError("exec_syslogprocessor: no way round the streaming loop after the send")
 
+    # ---------- whether the release pass runs does not depend on the shape of the message just printed
+    # drop_data_try may hold back only for the feature switches and for "still within the first two
+    # blocks" (a progress condition on the block offset).  A test on the message itself - it fits in one
+    # block, has one line, is short - makes the release depend on how record and block boundaries fall:
+    # with fixed-size records that divide the block size nothing would ever be released.
+    tb_ = prog.body(SP + "::drop_data_try")
+    dcall = [c for c in tb_.live_calls() if c.d == SP + "::drop_data"]
+    if len(dcall) != 1:
+        raise CheckerError("drop_data_try: %d calls of drop_data" % len(dcall))
+    dcb = dcall[0].bb
+    ALLOWED_MSG = ("blockoffset_first", "blockoffset_last", "deref", "as_ref")
+    shape_tests = []
+    nctl = 0
+    for sbb in sorted(tb_.live):
+        t = tb_.term(sbb)
+        if t[0] != "switch" or dcb not in tb_.reachable(sbb):
+            continue
+        if not any(tb_.term(x)[0] == "ret" for x in tb_.reachable(sbb, {dcb})):
+            continue
+        nctl += 1
+        seen_, work_ = set(), [t[1]]
+        while work_ and len(seen_) < 60:
+            cur_ = work_.pop()
+            for o_ in tb_.origins(cur_, through_calls=("ops::Not>::not",)):
+                if o_[0] == "bin":
+                    st_ = tb_.stmts(o_[1])[o_[2]]
+                    work_.extend(x for x in (st_[2][2], st_[2][3]) if x[0] != "k")
+                elif o_[0] == "call" and o_[1] not in seen_:
+                    seen_.add(o_[1])
+                    cc_ = [z for z in tb_.calls if z.bb == o_[1]][0]
+                    nm_ = (cc_.o or cc_.d).split("::")[-1]
+                    on_msg = any(x[0] == "arg" and x[1] == 2 for a_ in cc_.args if a_[0] != "k" for x in tb_.origins(a_, through_calls=("::deref", "::as_ref")))
+                    if on_msg and nm_ not in ALLOWED_MSG:
+                        shape_tests.append((nm_, cc_.line))
+                    work_.extend(a_ for a_ in cc_.args if a_[0] != "k")
+    rep.examined(R171, SP + "::drop_data_try|guards", sample={"switches_that_can_skip_the_release": nctl, "tests_of_the_message_itself": shape_tests})
+    if nctl == 0:
+        raise CheckerError("drop_data_try: no guard of the drop_data call found")
+    if shape_tests:
+        rep.violation(R171, SP + "::drop_data_try|guards|message-shape", "drop_data_try (line %d) holds the release pass back depending on %s() of the message just printed; when every block boundary falls between messages "
+                      "(fixed-size records, power-of-two block size) nothing is ever released and lines/messages high equal the whole file" % (shape_tests[0][1], shape_tests[0][0]))
+
     # ---------- must-call chain
     chain = [SP + "::drop_data_try", SP + "::drop_data", SR + "::drop_data", SR + "::drop_sysline", LR + "::drop_lines", LR + "::drop_line", BR + "::drop_block"]
     for a, c_ in zip(chain, chain[1:]):
@@ -338,6 +380,61 @@ def run(prog, rep, tier):
     elif not full:
         rep.violation(R174, dl.path + "|bound", "LineReader::drop_line releases at most all-but-the-last part's block of a line (bound definitions: %s) and is the only caller of drop_block for plain files; "
                       "a block in which every line ends at or before the block's last byte (e.g. fixed 64-byte lines with --blocksz 1024) is never released: blocks high = blocks total" % [list(map(str, d)) for d in bound_defs])
+
+    # ------------------------------------------------------------ R17.8 "the line ends on the last byte of its block" is asked of the exclusive end
+    # drop_line releases the block of a line's last part only when the line ends exactly at the block's
+    # end: (one-past-the-end offset) % blocksz == 0.  The code base has both conventions
+    # (Line::fileoffset_end is inclusive, LinePart::fileoffset_end is exclusive); the constant added before
+    # the remainder has to complement the convention of the function that supplies the end, decided by
+    # reading that function's own return expression (`.. - 1` = inclusive).
+    R178 = rep.rule("R17.8", "the block-end test of drop_line adds 1 to an inclusive end and nothing to an exclusive end")
+    n178 = 0
+    for bb in sorted(dl.live):
+        for st in dl.stmts(bb):
+            if not (st[0] == "=" and st[2][0] == "bin" and st[2][1].startswith("Rem")):
+                continue
+            if dl.shape(st[2][3]) != ("call", "blocksz"):
+                continue
+            sh = dl.shape(st[2][2])
+            add_c, endcall = None, None
+            if sh[0] == "call":
+                add_c, endcall = 0, st[2][2]
+            elif sh[0] in ("Add", "Sub") and sh[1][0] == "call" and sh[2][0] == "k" and isinstance(sh[2][1], int):
+                add_c = sh[2][1] if sh[0] == "Add" else -sh[2][1]
+                # the call operand
+                d_ = dl.defs.get(op_local(st[2][2]), [])
+                while len(d_) == 1 and d_[0][1] != "call" and d_[0][2][0] in ("use", "cast"):
+                    d_ = dl.defs.get(op_local(d_[0][2][1] if d_[0][2][0] == "use" else d_[0][2][2]), [])
+                if len(d_) == 1 and d_[0][1] != "call" and d_[0][2][0] == "bin":
+                    endcall = d_[0][2][2]
+            if endcall is None:
+                continue
+            cd_ = dl.defs.get(op_local(endcall), [])
+            while len(cd_) == 1 and cd_[0][1] != "call" and cd_[0][2][0] in ("use", "cast"):
+                cd_ = dl.defs.get(op_local(cd_[0][2][1] if cd_[0][2][0] == "use" else cd_[0][2][2]), [])
+            if len(cd_) != 1 or cd_[0][1] != "call":
+                continue
+            callee = cd_[0][2].d
+            fb_ = prog.body(callee, required=False)
+            if fb_ is None:
+                raise CheckerError("R17.8: body of %s not available" % callee)
+            rs = fb_.shape(["cp", [0]])
+            if rs[0] == "Sub" and rs[2] == ("k", 1):
+                conv = "inclusive"
+            elif rs[0] == "Add" and rs[2] != ("k", 1) or rs[0] in ("place", "call"):
+                conv = "exclusive-or-opaque"
+            else:
+                conv = "unknown"
+            n178 += 1
+            ok_ = (conv == "inclusive" and add_c == 1) or (conv == "exclusive-or-opaque" and rs[0] == "Add" and add_c == 0)
+            decided = conv == "inclusive" or (conv == "exclusive-or-opaque" and rs[0] == "Add")
+            rep.examined(R178, "%s|block-end-test" % dl.path, sample={"end_supplied_by": callee.split("::")[-2] + "::" + callee.split("::")[-1], "its_return_expression": str(rs)[:80], "convention": conv, "constant_added": add_c, "decided": decided})
+            if decided and not ok_:
+                rep.violation(R178, "%s|block-end-test|off-by-one" % dl.path, "LineReader::drop_line tests (%s() %+d) %% blocksz == 0, but %s returns the %s end (%s): a line that really ends on the last byte of its block is not recognised, "
+                              "its block is never released, and a plain file leaks one block per such boundary (blocks high grows with the file)" % (
+                                  callee.split("::")[-1], add_c, callee.split("::")[-2] + "::" + callee.split("::")[-1], "exclusive" if conv != "inclusive" else "inclusive", str(rs)[:60]))
+    if n178 == 0:
+        raise CheckerError("R17.8: no `end % blocksz` test found in LineReader::drop_line")
 
     return rep.finish(
         "Static necessary-condition check that the release path exists and runs: every way round the streaming loop after sending a non-last "
